@@ -523,7 +523,7 @@ def run_model(ck, drv, lines, nproc=6):
 
 def corpus_cases(sessions):
     """corpus/C02/*.case: `<config-name> <to> <op>+<op>+...` with op = rec<i> | flip<i>.<bit> | type<i>.<hexbyte> | ver<i>.<4 hex>
-    (i = index of a genuine record towards <to>); resolved against the records of this run"""
+    (i = index of a genuine record towards <to>) | cut<i>.<n> (last n bytes dropped, length field fixed); resolved against the records of this run"""
     out = []
     p = os.path.join(vlib.VERIF, "corpus", "C02")
     by = {s.name: s for s in sessions}
@@ -542,6 +542,7 @@ def corpus_cases(sessions):
                     if name == "flip": r = flip(r, 8 * len(r) - 1 if arg == "last" else int(arg) % (8 * len(r)))
                     elif name == "type": r = bytes([int(arg, 16)]) + r[1:]
                     elif name == "ver": r = r[:1] + bytes.fromhex(arg) + r[3:]
+                    elif name == "cut": r = hdr(r[0], r[1], r[2], len(r) - 5 - int(arg)) + r[5:len(r) - int(arg)]
                     wire += r
                 out.append((se, to, "corpus:" + t[2], wire, None))
     return out
